@@ -63,6 +63,10 @@ pub struct TLife {
 #[derive(Serialize, Deserialize, Clone, Debug, Hash, PartialEq, Eq)]
 pub struct TimesCase {
     pub lifetimes: Vec<TLife>,
+    /// build every lifetime's (FuncPtr, verifier) pair up front (a table of fakes prepared by a
+    /// set-up helper), install them later: counting must still start at the *installation*
+    #[serde(default)]
+    pub prebuilt: bool,
 }
 
 #[derive(Serialize, Deserialize, Clone, Debug, Default)]
@@ -124,23 +128,38 @@ pub fn execute(c: &TimesCase) -> TimesObs {
     ip::plan_reset();
     let addrs = [tt_a as fn(u64) -> u64 as usize, tt_b as fn(u64) -> u64 as usize, tt_unit as fn(u64) as usize, tt_out as fn(u64, &mut u64) -> u64 as usize];
     let pristine: Vec<Vec<u8>> = addrs.iter().map(|a| crate::mem::read_direct(*a, 16)).collect();
-    for l in &c.lifetimes {
+    let build = |site: u8| match site % N_SITES {
+        0 => site0(),
+        1 => site1(),
+        2 => site2(),
+        _ => site3(),
+    };
+    let mut table: Vec<Option<(FuncPtr, CallCountVerifier)>> = vec![];
+    if c.prebuilt {
+        for l in &c.lifetimes {
+            TIMES[(l.site % N_SITES) as usize].store(l.n as usize, SeqCst);
+            table.push(Some(build(l.site)));
+        }
+    }
+    for (li, l) in c.lifetimes.iter().enumerate() {
         let mut lo = TLifeObs::default();
         let site = l.site % N_SITES;
         TIMES[site as usize].store(l.n as usize, SeqCst);
+        let pair = if c.prebuilt { table[li].take() } else { None };
         crate::worker::phase("install");
-        let r = std::panic::catch_unwind(|| {
+        let r = std::panic::catch_unwind(std::panic::AssertUnwindSafe(|| {
             ip::sut(|| {
                 let mut inj = InjectorPP::new();
+                let pair = pair.unwrap_or_else(|| build(site));
                 match site {
-                    0 => inj.when_called(injectorpp::func!(fn (tt_a)(u64) -> u64)).will_execute(site0()),
-                    1 => inj.when_called(injectorpp::func!(fn (tt_b)(u64) -> u64)).will_execute(site1()),
-                    2 => inj.when_called(injectorpp::func!(fn (tt_unit)(u64))).will_execute(site2()),
-                    _ => inj.when_called(injectorpp::func!(fn (tt_out)(u64, &mut u64) -> u64)).will_execute(site3()),
+                    0 => inj.when_called(injectorpp::func!(fn (tt_a)(u64) -> u64)).will_execute(pair),
+                    1 => inj.when_called(injectorpp::func!(fn (tt_b)(u64) -> u64)).will_execute(pair),
+                    2 => inj.when_called(injectorpp::func!(fn (tt_unit)(u64))).will_execute(pair),
+                    _ => inj.when_called(injectorpp::func!(fn (tt_out)(u64, &mut u64) -> u64)).will_execute(pair),
                 }
                 inj
             })
-        });
+        }));
         let inj = match r {
             Ok(i) => i,
             Err(_) => {
@@ -200,6 +219,10 @@ pub fn execute(c: &TimesCase) -> TimesObs {
         lo.restored = addrs.iter().zip(&pristine).all(|(a, p)| &crate::mem::read_direct(*a, 16) == p);
         o.lifetimes.push(lo);
     }
+    // never run the verifiers of pairs that were not installed
+    for p in table.into_iter().flatten() {
+        std::mem::forget(p);
+    }
     o
 }
 
@@ -218,13 +241,13 @@ pub fn strategy(c07_bias: bool) -> impl Strategy<Value = TimesCase> {
         TLife { site, n, calls, threads, exit_unwind }
     });
     let count = if c07_bias { 2usize..=8 } else { 1usize..=3 };
-    (prop::collection::vec(life, count), 0u8..N_SITES, prop::bool::weighted(if c07_bias { 0.8 } else { 0.3 })).prop_map(|(mut lifetimes, site, same_site)| {
+    (prop::collection::vec(life, count), 0u8..N_SITES, prop::bool::weighted(if c07_bias { 0.8 } else { 0.3 }), prop::bool::weighted(if c07_bias { 0.35 } else { 0.1 })).prop_map(|(mut lifetimes, site, same_site, prebuilt)| {
         if same_site {
             for l in lifetimes.iter_mut() {
                 l.site = site;
             }
         }
-        TimesCase { lifetimes }
+        TimesCase { lifetimes, prebuilt }
     })
 }
 
@@ -337,6 +360,9 @@ pub fn judge(rec: &mut Recorder, c: &TimesCase, ex: Exec, _hello: &Value) -> Res
         let repeated_site = e.0 >= 1 && e.1 >= 1;
         e.0 += 1;
         e.1 += absorbed;
+        if c.prebuilt && repeated_site {
+            rec.class("prebuilt-table/site-reused-after-calls");
+        }
         rec.class(&format!("site{site}/{}{}{}", if l.threads > 1 { "threads>=2" } else { "1-thread" }, if k > n { "/over-called" } else if k < n { "/under-called" } else { "/exact" }, if repeated_site { "/site-reused-after-calls" } else { "" }));
         let nontrivial = if prop == "C07" { repeated_site } else { k >= 1 && (k > n || !non.is_empty() || l.threads >= 2) };
         if nontrivial {
